@@ -235,7 +235,7 @@ func VerifC05_FibHistory() {
 // Longer histories as fixed shapes of operation kinds (I insert/update, R remove, C clear, S set strategy,
 // U unset strategy): every prefix, face, cost and the final lookup name stay symbolic; lookups and listings are
 // checked once, after the last operation.
-var verifC05Shapes = []string{"IIR", "IIC", "IRI", "IIS", "ISU", "SIU", "IIRI", "IIRR", "SSU"}
+var verifC05Shapes = []string{"IIR", "IIC", "IRI", "IIS", "ISU", "SIU", "IIRI", "IIRR", "SSU", "ISR", "SIC", "SIRI"}
 
 func VerifC05_Scripted() {
 	depth := verifParam("sdepth", 3)
